@@ -433,6 +433,9 @@ class ORCA(autode.wrappers.methods.ExternalMethodOEGH):
         hessian_blocks = []
         start_line = self._start_line_hessian(calc, file_lines)
 
+        if not any(ln.startswith("$end") for ln in file_lines[start_line:]):
+            raise CouldNotGetProperty("Hessian file was not complete")
+
         for j, h_line in enumerate(file_lines[start_line:]):
             if len(h_line.split()) == 0:
                 # Assume we're at the end of the Hessian
